@@ -317,4 +317,4 @@ def run(ctx, rep):
     auditlib.panic_audit(ctx, rep, "C17", ["G_stream_w"], floor_sites=30)
     from rules import iolib, C03
     iolib.count_rules(ctx, rep, "C17")
-    C03.run(ctx, SubReport(rep, "C03", "C17.dec", only=r"^C03\.wide$"))
+    compose(ctx, rep, "C03", "C17.dec", r"^C03\.wide$")
